@@ -1,0 +1,9 @@
+//go:build !verif
+// +build !verif
+
+// Package verifhook: named crash points used by the verification harness (build tag
+// `verif`). Without the tag the call compiles to nothing.
+package verifhook
+
+// Crash is a no-op unless built with -tags verif.
+func Crash(string) {}
